@@ -14,6 +14,10 @@ var targetFile = map[string]string{
 	"isCallResOK":        "GenFrame",
 	"ChecksumSize":       "GenFrame",
 	"poolIndex":          "GenFrame",
+	// C15
+	"preferIncomingScore": "GenPeers",
+	"leastPendingScore":   "GenPeers",
+	"zeroScore":           "GenPeers",
 }
 
 // varFields: constant fields of package-level composite-literal variables.
@@ -73,4 +77,12 @@ var targets = []Target{
 	// checksum.go
 	{Func: "ChecksumType.ChecksumSize", Out: "ChecksumSize", Params: "(t : Z)", Ret: "Z",
 		Hints: map[string]string{"crc32.Size": "4"}},
+	// C15: peer_strategies.go score calculators over (inbound, outbound, pending)
+	{Func: "preferIncomingCalculator.GetScore", Out: "preferIncomingScore", Params: "(inbound outbound pending : Z)", Ret: "Z",
+		Hints:  map[string]string{"p.NumPendingOutbound()": "pending"},
+		SHints: map[string]string{"inbound, outbound := p.NumConnections()": ""}},
+	{Func: "leastPendingCalculator.GetScore", Out: "leastPendingScore", Params: "(inbound outbound pending : Z)", Ret: "Z",
+		Hints:  map[string]string{"p.NumPendingOutbound()": "pending"},
+		SHints: map[string]string{"inbound, outbound := p.NumConnections()": ""}},
+	{Func: "zeroCalculator.GetScore", Out: "zeroScore", Params: "(inbound outbound pending : Z)", Ret: "Z"},
 }
